@@ -385,6 +385,10 @@ pub fn pick_cfg(r: &mut FastRng, i: usize) -> CuckooCfg {
     cfg.n_buckets = cfg.n_buckets.min(32);
     cfg.l = *r.pick(&[2usize, 2, 3, 5, 8, 13, 31, 32, 33, 40, 48, 64]);
     cfg.bh = match i % 4 {
+        // every 16th item: a key is its own hash (the universe then contains extreme words such as
+        // u64::MAX and 0), or every key hashes to one extreme word
+        _ if i % 16 == 5 => CtlBuildHasher::identity(),
+        _ if i % 16 == 13 => CtlBuildHasher::new(HMode::Constant, *r.pick(&EXTREME_WORDS)),
         0 => CtlBuildHasher::layout(),
         1 | 2 => CtlBuildHasher::new(HMode::Mix, r.next()),
         _ => {
